@@ -18,8 +18,16 @@ class C02(Prop):
     lean_exe = "c02_driver"
     harness = "h_sqio.c"
     theorems = ["EaselModel.Props.C02." + t for t in S.C02_THEOREMS]
-    claimed = False
+    claimed = True
     diverge_is_violation = True
+    level_text = ("Theorems for every byte string and every read-block size B >= 1: the block loader keeps its window inside the file (loadbuf_total); nextchar - the only primitive of the FASTA header parsers - never faults and neither skips nor repeats a byte across block boundaries (nextchar_total); "
+                  "seebuf - the residue scanner behind all five read calls - never faults, never leaves the buffer and rejects bytes >= 0x80 before they index the input map (seebuf_total); the file and alphabet input maps agree on every symbol (inmaps_agree, re-proved against the regenerated tables each run). "
+                  "Tie: exact differential run of the executable FASTA model (outcome, message flag, line number, every ESL_SQ field) against the ASan/UBSan/LSan build on mutated formats/* files, generated FASTA with injected NUL/CR/>=0x80/illegal bytes and raw bytes, x B in {1,2,3,7,64,4096}; "
+                  "for ALL nine format selections (incl. EMBL/UniProt/GenBank/DDBJ/daemon/hmmpgmd/autodetect/alignment-as-sequences) x text/amino/DNA/RNA x Read/ReadInfo/ReadSequence/ReadWindow/ReadBlock the harness-side monitor checks status in the documented set, message on eslEFORMAT, well-formed ESL_SQ, no exception, no sanitizer report, no leak.")
+    level_note = ("The totality of the whole reader (composition of the primitives through header_fasta / read_nres / Read*) is NOT a theorem: it is covered by the differential run and the sanitizer build. Outside the FASTA family there is no model at all: those selections are covered by the monitor only (search, not proof). Leaks are LSan only.")
+    assumptions = ["fread returns min(B, remaining) bytes; allocation never fails (eslEMEM paths not modelled)",
+                   "formats other than FASTA (EMBL/UniProt/GenBank/DDBJ/daemon/hmmpgmd, autodetection, alignment files), ReadBlock and GuessAlphabet are outside the model: sanitizer + record monitor only",
+                   "the model mirrors esl_sqio_ascii.c by hand; fidelity is checked by the differential run only"]
     technique = ("Lean 4 proofs that the executable model of the reader core never leaves its buffers (`fault` unreachable) and only returns well-formed records, "
                  "+ exact differential correspondence with the ASan/UBSan/LSan build on mutated and raw inputs, + harness-side well-formedness monitor for every format selection")
     trusted_base = ["hand model of esl_sqio_ascii.c's FASTA reader tied by exact differential run (h_sqio.c); other format selections are covered by the sanitizer build and the record monitor only",
@@ -92,7 +100,7 @@ class C02(Prop):
 
     def cases(self, ctx):
         rng = ctx.rng
-        n = 260 if ctx.tier == "quick" else 6000
+        n = 1100 if ctx.tier == "quick" else 20000
         seeds = self.seeds(ctx)
         names = sorted(seeds)
         out = []
